@@ -57,6 +57,40 @@ fn check_add(start: [i64; 6], d: u64) -> Option<String> {
         Err(_) => Some(format!("add start={start:?} dur_secs={d} expected={want:?} actual=panic")),
     }
 }
+/// the rendering: iso8601_utc (cookie expiry, stdout logger) and the `time` member of a JSON log line must be the
+/// reference fields, zero-padded and fixed-width: YYYY-MM-DDTHH:MM:SSZ
+fn check_render(s: i64) -> Option<String> {
+    use servlin::internal::FormatTime;
+    let f = fields(s);
+    let want = format!("{:04}-{:02}-{:02}T{:02}:{:02}:{:02}Z", f[0], f[1], f[2], f[3], f[4], f[5]);
+    let t = std::time::UNIX_EPOCH + Duration::from_secs(s as u64);
+    let got = match std::panic::catch_unwind(|| t.iso8601_utc()) { Ok(g) => g, Err(_) => return Some(format!("render secs={s} expected={want} actual=panic")) };
+    if got != want { return Some(format!("render secs={s} expected={want} actual={got}")); }
+    // a cookie's Expires attribute carries the same text
+    let c: servlin::AsciiString = servlin::Cookie::new("n", servlin::AsciiString::new()).with_expires(t).into();
+    if s != 0 && !c.as_str().contains(&format!("; Expires={want};")) { return Some(format!("render secs={s} expected=Expires={want} actual={}", c.as_str())); }
+    None
+}
+/// a JSON log line and a log file name made now carry the current date-time in the same fixed-width forms
+fn check_now_renderings() -> Option<String> {
+    use servlin::internal::FormatTime;
+    let before = std::time::SystemTime::now();
+    let ev = servlin::log::internal::LogEvent::new(servlin::log::Level::Info, servlin::log::tag("msg", "x"));
+    let mut line = Vec::new();
+    let _ = ev.write_jsonl(&mut line);
+    let dir = std::env::temp_dir().join(format!("verif-c16-{}", std::process::id()));
+    let _ = std::fs::create_dir_all(&dir);
+    let lf = servlin::log::internal::LogFile::create(&dir.join("log"));
+    let after = std::time::SystemTime::now();
+    let name = lf.as_ref().ok().map(|l| l.path.file_name().unwrap().to_string_lossy().to_string());
+    let _ = std::fs::remove_dir_all(&dir);
+    let line = String::from_utf8_lossy(&line).to_string();
+    let stamps: Vec<String> = (0..=2).flat_map(|k| [before + Duration::from_secs(k), after + Duration::from_secs(k)]).chain([before, after]).map(|t| t.iso8601_utc()).collect();
+    if !stamps.iter().any(|st| line.starts_with(&format!("{{\"time\":\"{st}\","))) { return Some(format!("render now expected=time member {} actual={line:?}", stamps[0])); }
+    let compact: Vec<String> = stamps.iter().map(|st| st.replace(['-', ':'], "")).collect();
+    match name { None => Some("render now expected=log file created actual=error".into()),
+        Some(nm) => if compact.iter().any(|c| nm == format!("log.{c}-0")) { None } else { Some(format!("render now expected=log.{}-0 actual={nm}", compact[0])) } }
+}
 
 fn main() {
     std::panic::set_hook(Box::new(|_| {}));
@@ -69,7 +103,7 @@ fn main() {
             .filter(|s| !s.is_empty())
             .filter_map(|s| s.parse().ok())
             .collect();
-        let r = if w.starts_with("new") { check_new(nums[0]) } else {
+        let r = if w.starts_with("render now") { check_now_renderings() } else if w.starts_with("render") { check_render(nums[0]) } else if w.starts_with("new") { check_new(nums[0]) } else {
             check_add([nums[0], nums[1], nums[2], nums[3], nums[4], nums[5]], nums[6] as u64)
         };
         match r {
@@ -106,6 +140,16 @@ fn main() {
             }
         }
     }
+    // rendering on the same grid (coarser) and around every power of ten of each field
+    let mut day = 0i64;
+    while day <= last {
+        for sod in [0, 9, 10, 3599, 36000, 86399] { n += 1; if let Some(m) = check_render(day * 86400 + sod) { if found.len() < 5 { found.push(m) } } }
+        day += if thorough { 13 } else { 997 };
+    }
+    for (y, m, d) in [(1970, 1, 1), (1999, 9, 9), (1999, 10, 10), (2000, 2, 29), (2009, 12, 31), (2010, 1, 1), (9999, 12, 31), (2026, 10, 5)] {
+        for sod in [0, 1, 9 * 3600 + 9 * 60 + 9, 10 * 3600 + 10 * 60 + 10, 86399] { n += 1; if let Some(msg) = check_render(days_from_civil(y, m, d) * 86400 + sod) { if found.len() < 5 { found.push(msg) } } }
+    }
+    n += 1; if let Some(m) = check_now_renderings() { if found.len() < 5 { found.push(m) } }
     println!("EVALUATED {n}");
     for f in &found { println!("WITNESS {f}"); }
     std::process::exit(if found.is_empty() { 0 } else { 1 });
